@@ -520,8 +520,14 @@ func runFlavour(bin string, m *meta, id, tier, fl string, seed uint64, out *runO
 	if nprocs > m.Blocks {
 		nprocs = m.Blocks
 	}
+	nblocks := m.Blocks
+	if fl == "386" && nblocks >= 4 {
+		// the 32-bit build is about integer widths, word size and alignment, not
+		// about covering the case space a second time: a quarter of the blocks
+		nblocks = m.Blocks / 4
+	}
 	assign := make([][]int, nprocs)
-	for b := 0; b < m.Blocks; b++ {
+	for b := 0; b < nblocks; b++ {
 		assign[b%nprocs] = append(assign[b%nprocs], b)
 	}
 	var mu sync.Mutex
